@@ -79,6 +79,7 @@ def run(repo, rep, tier):
     lis = repo.cls(LS, 'WBEMListener')
     hnd = repo.cls(LS, 'ListenerRequestHandler')
     per_instance_sync_state(repo, rep)
+    delivery_before_accepting(repo, rep)
 
     def m(name):
         f = lis.methods.get(name)
@@ -567,3 +568,65 @@ def per_instance_sync_state(repo, rep):
                     LS, 1, 'no synchronisation object is created in an '
                     '__init__ of the listener module: the stop flag of the '
                     'callback thread is not per thread object')
+
+
+def delivery_before_accepting(repo, rep):
+    """C16.R8: start() sets up indication delivery (the queue and the
+    started callback thread) before it starts a thread that accepts
+    requests.  A server thread started earlier can run do_POST while
+    self._ind_queue is still None: _handle_indication() then ignores the
+    indication and returns normally, so the sender gets a success response
+    for an indication that no callback will ever see."""
+    r8 = rep.rule('C16.R8', 'the indication queue and the callback thread '
+                  'exist before a request-serving thread is started')
+    lis = repo.cls(LS, 'WBEMListener')
+    start = lis.methods.get('start')
+    if start is None:
+        raise AnalysisError('WBEMListener.start vanished')
+    r8.functions.add(start.fq)
+    from ..inline import Flat
+    cfg = CFG(Flat(start, aliases=True).node)
+
+    def simple(n):
+        return isinstance(n, ast.stmt) and not isinstance(
+            n, (ast.If, ast.For, ast.While, ast.Try, ast.With))
+    qdef = [n for n in cfg.nodes if simple(n) and isinstance(n, ast.Assign)
+            and norm(n.targets[0]) == 'self._ind_queue' and
+            not (isinstance(n.value, ast.Constant) and
+                 n.value.value is None)]
+    # locals / fields bound to a thread whose target serves requests, and to
+    # the callback thread
+    serving, consumer = set(), set()
+    for n in cfg.nodes:
+        if simple(n) and isinstance(n, ast.Assign) and \
+                isinstance(n.value, ast.Call):
+            tgt = [norm(k.value) for k in n.value.keywords
+                   if k.arg == 'target']
+            if tgt and 'serve_forever' in tgt[0]:
+                serving.add(norm(n.targets[0]))
+            elif tgt and tgt[0] == 'self._callback_run':
+                consumer.add(norm(n.targets[0]))
+    starts = [n for n in cfg.nodes if simple(n) and isinstance(n, ast.Expr)
+              and isinstance(n.value, ast.Call) and
+              isinstance(n.value.func, ast.Attribute) and
+              n.value.func.attr == 'start']
+    srv_starts = [n for n in starts if norm(n.value.func.value) in serving]
+    cb_starts = [n for n in starts if norm(n.value.func.value) in consumer]
+    if not qdef or not srv_starts or not cb_starts:
+        raise AnalysisError('start(): queue creation (%d), server thread '
+                            'starts (%d) or callback thread start (%d) not '
+                            'found' % (len(qdef), len(srv_starts),
+                                       len(cb_starts)))
+    for st in srv_starts:
+        r8.sites += 1
+        ok = any(cfg.dominates(q, st) for q in qdef) and \
+            any(cfg.dominates(c, st) for c in cb_starts)
+        r8.ob(ok, norm(st, 50), {'queue': norm(qdef[0], 50)})
+        if not ok:
+            rep.finding(r8, start.qualname, norm(st, 60),
+                        'accepting-before-delivery', LS, st.lineno,
+                        'this request-serving thread is started on a path '
+                        'on which the indication queue has not been created '
+                        '/ the callback thread has not been started: a '
+                        'request handled in that window is acknowledged '
+                        'with a success response and silently dropped')
